@@ -210,11 +210,12 @@ class ExpandedTraceback:
         else:
             # print(frame.filename, self.student_files, frame.lineno)
             if frame.filename in self.student_files:
-                if frame.lineno - 1 < len(self.original_code_lines):
+                file_lines = self.student_files[frame.filename]
+                if frame.lineno - 1 < len(file_lines):
                     if IS_AT_LEAST_PYTHON_313:
-                        frame._lines = self.student_files[frame.filename][frame.lineno - 1]
+                        frame._lines = file_lines[frame.lineno - 1]
                     else:
-                        frame._line = self.student_files[frame.filename][frame.lineno - 1]
+                        frame._line = file_lines[frame.lineno - 1]
                 else:
                     # Not actually possible in CPython, but Skulpt gives weird
                     #   SyntaxErrors that are technically the "next" line.
